@@ -267,6 +267,47 @@ func ttfProgram(fault func(i int, width int) []byte) ([]byte, int) {
 // ttfDoc: one page set in a TrueType font whose program is embedded (/FontFile2, Flate)
 func ttfDoc(fault func(i int, width int) []byte) ([]byte, int, error) {
 	prog, n := ttfProgram(fault)
+	b, err := ttfDocWith(prog)
+	return b, n, err
+}
+
+// ttfSegmentsProgram: a font program whose cmap format-4 subtable has n segments, each covering 0..0xFFFF
+// (66 KB of 0xFF and 0x00 bytes that deflate to about a hundred)
+func ttfSegmentsProgram(n int) []byte {
+	be16 := func(v int) []byte { return []byte{byte(v >> 8), byte(v)} }
+	be32 := func(v int) []byte { return []byte{byte(v >> 24), byte(v >> 16), byte(v >> 8), byte(v)} }
+	head := make([]byte, 54)
+	copy(head[18:], be16(1000))
+	var cm []byte
+	for _, x := range [][]byte{be16(0), be16(1), be16(3), be16(1), be32(12), be16(4), be16(0), be16(0), be16(2 * n), make([]byte, 6)} {
+		cm = append(cm, x...)
+	}
+	for i := 0; i < n; i++ {
+		cm = append(cm, 0xFF, 0xFF)
+	}
+	cm = append(cm, 0, 0)
+	cm = append(cm, make([]byte, 2*n)...)
+	tabs := []struct {
+		tag  string
+		data []byte
+	}{{"cmap", cm}, {"head", head}}
+	var out, body []byte
+	out = append(out, be32(0x00010000)...)
+	out = append(out, be16(len(tabs))...)
+	out = append(out, make([]byte, 6)...)
+	off := 12 + 16*len(tabs)
+	for _, t := range tabs {
+		out = append(out, []byte(t.tag)...)
+		out = append(out, be32(0)...)
+		out = append(out, be32(off)...)
+		out = append(out, be32(len(t.data))...)
+		body = append(body, t.data...)
+		off += len(t.data)
+	}
+	return append(out, body...)
+}
+
+func ttfDocWith(prog []byte) ([]byte, error) {
 	f := &pdfw.File{EOL: "lf"}
 	f.Revs = []pdfw.Revision{{XRef: "table", Root: pdfw.Ref{Num: 1}, Items: []pdfw.Item{
 		{Num: 1, Val: pdfw.Dict{{"Type", pdfw.Name("Catalog")}, {"Pages", pdfw.Ref{Num: 2}}}},
@@ -281,7 +322,7 @@ func ttfDoc(fault func(i int, width int) []byte) ([]byte, int, error) {
 			{"CapHeight", pdfw.Int(700)}, {"StemV", pdfw.Int(80)}, {"FontFile2", pdfw.Ref{Num: 7}}}},
 		{Num: 7, Stm: &pdfw.Stream{Dict: pdfw.Dict{{"Filter", pdfw.Name("FlateDecode")}, {"Length1", pdfw.Int(len(prog))}}, Data: pdfw.Deflate(prog)}}}}}
 	b, _, err := f.Bytes()
-	return b, n, err
+	return b, err
 }
 
 // ------------------------------------------------------------ fault application
@@ -1004,6 +1045,13 @@ func specialPDFs(kind string) ([][]byte, error) {
 			return nil, err
 		}
 		out = append(out, b)
+	case "ttf-segments":
+		// an embedded TrueType program whose character map names the whole code range in each of 32767 segments
+		b, err := ttfDocWith(ttfSegmentsProgram(32767))
+		if err != nil {
+			return nil, err
+		}
+		out = append(out, b)
 	case "xref-index-odd", "xref-w000":
 		// a cross-reference stream whose /Index has an odd number of entries; one whose entries are zero bytes wide
 		// while /Index announces two thousand million of them
@@ -1068,11 +1116,11 @@ func specialPDFs(kind string) ([][]byte, error) {
 // ------------------------------------------------------------ one case (child side)
 
 type caseResult struct {
-	Idx    int           `json:"idx"`
-	Calls  []callOutcome `json:"calls"`
-	Sites  int           `json:"sites,omitempty"`
-	Faulty bool          `json:"faulty"`
-	Skipped bool         `json:"skipped,omitempty"`
+	Idx     int           `json:"idx"`
+	Calls   []callOutcome `json:"calls"`
+	Sites   int           `json:"sites,omitempty"`
+	Faulty  bool          `json:"faulty"`
+	Skipped bool          `json:"skipped,omitempty"`
 }
 
 func renderToks(ts []string, bad string) []byte {
